@@ -131,6 +131,13 @@ def handleIr (trace : Bool) : List String → String
     | _, _ => "bad-op"
   | _ => "bad-op"
 
+/-- the program in which the `…StepG_internal` routines are replaced by `skip`: their effect (the
+true tag in the state field) is supplied by the op line, because the block primitives they call
+are opaque in the IR -/
+def progStepV : Prog :=
+  { prog with funs := (prog.funs.zip names).map fun (fn, nm) =>
+      if nm.1.endsWith "StepG_internal" then { fn with body := .skip } else fn }
+
 def handleStepV : List String → String
   | [name, _key, _iv, _data, tag, len, truetag, off, size] =>
     match findFun name, parseHex tag, parseNat len, parseHex truetag, parseNat off, parseNat size with
@@ -142,7 +149,7 @@ def handleStepV : List String → String
         let stA := bufBase 1
         let sec := putBytes (putBytes (putBytes ∅ tagA tg) stA (List.replicate sz 0)) (stA + o) tt
         let vals := if fn.nparams == 3 then [tagA, ln, stA] else [tagA, stA]
-        let r := exec prog true fuel fn.body
+        let r := exec progStepV true fuel fn.body
           { vars := bindArgs 0 vals ∅, sec := sec, pub := initPub, st := 0, rv := 0, ora := [] }
         if r.1.st == 9 then "out-of-fuel" else if r.1.st == 8 then "stuck" else showRet bits sg r.1.rv
     | _, _, _, _, _, _ => "bad-op"
